@@ -39,6 +39,10 @@ class AnalysisError(Exception):
     """The analyser cannot decide (anchor vanished, unknown idiom). Exit code 2."""
 
 
+class SelfCheckError(AnalysisError):
+    """A recogniser no longer fires on its own embedded positive example: the checker is broken, whatever the code looks like."""
+
+
 # ----------------------------------------------------------------------------
 # small AST helpers
 # ----------------------------------------------------------------------------
